@@ -142,15 +142,17 @@ _FORK_SUB = re.compile(r"compo\w+\._items\[\(([\w:.]*)\.forkId-#1\)\]")
 
 
 def check_fork_index(ctx, F):
-    for fid, b in insts(F, "RegistryT", None, spec="general"):
+    for fid, b in list(insts(F, "RegistryT", None, spec="general")) + list(insts(F, "RegistryT", None, spec="noortho")):
         if not any(n.startswith("compo") for n in b.get("mems", ())):
             continue
-        site = "RegistryT<general>::" + b["name"]
+        general = F.spec(b["tid"]) == "general"
+        site = "RegistryT<%s>::%s" % ("general" if general else "noortho", b["name"])
         bad = None
         used = 0
         for p in sym_paths(F, fid, 2):
             ctx.paths += 1
             positive = set()          # symbols whose forkId is known > 0 on this path
+            moved = None
             for ev in p:
                 texts = []
                 if ev[0] == "assume":
@@ -158,6 +160,11 @@ def check_fork_index(ctx, F):
                     if m:
                         if ev[3]:
                             positive.add(m.group(1))
+                        continue
+                    # without orthogonal regions a fork id is positive or invalid: a valid Parent (its bool conversion) is a positive one
+                    m = None if general else re.match(r"^([\w:.]*?)(\.Parent::operator bool\(\))?$", ev[2])
+                    if m and ev[3] and m.group(1).startswith("L:"):
+                        positive.add(m.group(1))
                         continue
                     texts = [ev[2]]
                 elif ev[0] == "write":
@@ -167,18 +174,21 @@ def check_fork_index(ctx, F):
                 elif ev[0] == "call":
                     texts = [ev[3] or ""] + list(ev[4] or [])
                     if ev[2] is not None and F.fn(ev[2])["name"] == "operator=" and (ev[3] or "").startswith("L:"):
-                        positive.discard(ev[3])          # the walk moved on to another ancestor
+                        moved = ev[3]                    # the walk moves on to another ancestor (the new value was computed from the old one)
                 for t in texts:
                     for m in _FORK_SUB.finditer(t or ""):
                         used += 1
                         if m.group(1) not in positive:
                             bad = "compo…[%s.forkId - 1]" % m.group(1)
+                if moved and (ev[0] == "write" and ev[2] == moved or ev[0] not in ("write", "call")):
+                    positive.discard(moved)
+                    moved = None
         if used:
             ctx.instance("C11.fork-index", site, {"function": site, "loc": F.floc(fid), "subscripts_seen": used})
         if bad:
             ctx.violation("C11.fork-index", site, "%s (%s)" % (site, F.floc(fid)),
-                          "%s is used on a path where the fork id was not tested > 0: for a child of an orthogonal region the id is negative and the subscript "
-                          "lands far outside the array" % bad, {})
+                          "%s is used on a path where the fork id was not tested > 0: for a child of an orthogonal region the id is negative, for the root "
+                          "(which has no parent) it is the invalid id, and the subscript lands far outside the array" % bad, {})
 
 
 def check_no_alloc(ctx, F):
